@@ -196,6 +196,21 @@ def run(res, tier):
                            'to its own node, yet receives the later incremental updates' % f.q)
     if n_ioc < 2:
         raise AnalysisBroken('INDEX-OBSERVERS: %d InsertOrderedChild call sites found in StorageReflectSession' % n_ioc)
+    # the other two ways a session can put an entry into an index: ReorderChild() (adds the child if it is not indexed yet) and InsertIndexEntryAt()
+    n_oth = 0
+    for f in sorted((f for f in fx.funcs.values() if f.full and (f.cls or '') == SRS_), key=lambda f: f.line):
+        for c in f.walk():
+            if not (c['k'] == 'CXXMemberCallExpr' and (c.get('q') or '') in ('muscle::DataNode::ReorderChild', 'muscle::DataNode::InsertIndexEntryAt')):
+                continue
+            n_oth += 1
+            sets = [n for n in f.walk() if n['k'] == 'BinaryOperator' and n.get('op') == '=' and A.strip_casts(n['ch'][0]).get('n') == '_indexingPresent' and A.strip_casts(n['ch'][1]).get('v') in (1, True)]
+            ok2 = bool(sets) and (P.must_follow(f, c, sets, escapes=P.escape_edges(f))[0] or P.must_precede(f, sets, c))
+            res.ob('INDEX-OBSERVERS', f.where(c), '%s: %s is accompanied by _indexingPresent = true' % (f.q.split('::')[-1], (c.get('q') or '').split('::')[-1]), ok2, function=f.q,
+                   key='INDEX-OBSERVERS|%s|indexing-present:%s' % (f.q, (c.get('q') or '').split('::')[-1]),
+                   message='%s puts an entry into a node\'s index through %s without setting _indexingPresent: GetDataCallback keeps skipping the session\'s own subtree, so the owner cannot obtain a '
+                           'snapshot of an index it built this way (an observer can), yet it receives the incremental updates' % (f.q, (c.get('q') or '').split('::')[-1]))
+    if n_oth < 2:
+        raise AnalysisBroken('INDEX-OBSERVERS: %d ReorderChild/InsertIndexEntryAt call sites found in StorageReflectSession' % n_oth)
     f = fx.fn1('muscle::DataNode::InsertOrderedChild')
     hc = [c for c in f.walk() if c.is_call() and (c.get('q') or '').endswith('DataNode::HasChild')]
     gens = [c for c in f.walk() if c.is_call() and re.search(r'(sprintf|snprintf|Sprintf)$', c.get('q') or '')]
